@@ -14,3 +14,17 @@ package internal
 //@   ensures[C08.hull]      err == nil && abs(real(lastValue)) <= 1.0e300 && (lastValue == old(sensors.avgOf(s)) || abs(real(lastValue)) >= 1.0e-270 || abs(real(old(sensors.avgOf(s)))) >= 1.0e-270) && configuration.CurrentConfig.TempRollingWindowSize >= 2 ==> min(old(sensors.avgOf(s)), lastValue) <= sensors.avgOf(s) && sensors.avgOf(s) <= max(old(sensors.avgOf(s)), lastValue)
 //@   ensures[C08.readfin]   err == nil ==> fin(lastValue)
 //@   modifies lastValue, lastAvgRead, s.(*sensors.HwmonSensor).MovingAvg, s.(*sensors.FileSensor).MovingAvg, s.(*sensors.CmdSensor).MovingAvg, s.(*sensors.VirtualSensor).Value, lastReadFailed, procWorld, started
+
+// ---- daemon wiring: signal actor (C03) ------------------------------------------------------------------
+//@ extern func builtin.close(ch any)
+//@   effectfree
+//@   trusted "closing a channel has no effect on verified state; closing one that is registered with signal.Notify makes the next signal delivery panic"
+
+//@ func RunDaemon$10
+//@   props C03
+//@   atcall[C03.noclose] close: false
+//@   modifies anything
+
+//@ func RunDaemon$9
+//@   props C03
+//@   modifies anything
